@@ -193,11 +193,15 @@ Inductive xop :=
 | XReady (bucket : N)      (* hook: the pending node of that bucket becomes ready now *)
 | XIter                    (* a plain iteration over the table (applies every ready pending node); the
                               queue of applied pending nodes is drained afterwards *)
-| XWho (id : N) (qvs : list N).
+| XWho (id : N) (qvs : list N)
+| XPongQ (id seq : N) (qvs : list N).
                            (* HandlerOut::WhoAreYou for node [id] (Model.Admission.find_enr); [qvs]: the
                               records of that node the running lookup holds (tracked by the harness from the
                               table at the lookup's start and the NODES answers), in the order they are
-                              scanned.  Observed: the vid of the record handed to the handler, 0 for none *)
+                              scanned.  Observed: the vid of the record handed to the handler, 0 for none.
+                              XPongQ: a PONG for a ping of the service while a lookup runs that holds the
+                              records [qvs] of that node (Model.Admission.pong_q).  Observed: was an ENR
+                              update requested *)
 
 Definition mode_of (n : N) : ip_mode := if n =? 0 then Ip4 else if n =? 1 then Ip6 else DualStack.
 
@@ -222,7 +226,7 @@ Definition to_aop (recs : list enr) (x : xop) : aop :=
   | XUnv id => AUnverifiable id
   | XDisconnect id => ADisconnect id
   (* never used: [c12_steps] runs these on the table directly *)
-  | XReady _ | XIter | XWho _ _ => ADiscovered 0 []
+  | XReady _ | XIter | XWho _ _ | XPongQ _ _ _ => ADiscovered 0 []
   end.
 
 Definition add_code (r : add_out) : N :=
@@ -263,6 +267,9 @@ Fixpoint c12_steps (fx : fixes) (recs : list enr) (tfn : enr -> bool) (m : ip_mo
       | XWho id qvs =>
         let (t', r) := find_enr (rlookup recs) c t (map (rlookup recs) qvs) id now in
         (t', [match r with Some e => e_vid e | None => 0 end])
+      | XPongQ id s qvs =>
+        let (t', b) := pong_q (rlookup recs) m c t (map (rlookup recs) qvs) id s now in
+        (t', [bN b])
       | _ =>
         let (t', o) := astep (rlookup recs) tfn m fx c t (to_aop recs x) now in
         (t', enc_aout (local t) x o)
